@@ -295,10 +295,12 @@ theorem guard_passesL {C : Codecs} {T : String → Prop} (hC : LawfulCodecs C T)
     omega
   | case23 f0 k b' n b'' w e' f m r hc _ => intro u pos seen s pad _ _ hg; simp [guardFitsL] at hg
   | case24 f0 k b' n b'' w e' f m r hc => intro u pos seen s pad hl; simp [layoutUL, hc] at hl
-  | case25 e' r _ => intro u pos seen s pad _ _ hg; simp [guardFitsL] at hg
-  | case26 r _ => intro u pos seen s pad _ _ hg; simp [guardFitsL] at hg
-  | case27 r _ => intro u pos seen s pad _ _ hg; simp [guardFitsL] at hg
-  | case28 head tail h1 h2 h3 h4 h5 h6 h7 h8 h9 h10 h11 h12 h13 h14 h15 h16 h17 h18 =>
+  | case25 f0 n k b' g b'' f m r hc _ => intro u pos seen s pad _ _ hg; simp [guardFitsL] at hg
+  | case26 f0 n k b' g b'' f m r hc => intro u pos seen s pad hl; simp [layoutUL, hc] at hl
+  | case27 e' r _ => intro u pos seen s pad _ _ hg; simp [guardFitsL] at hg
+  | case28 r _ => intro u pos seen s pad _ _ hg; simp [guardFitsL] at hg
+  | case29 r _ => intro u pos seen s pad _ _ hg; simp [guardFitsL] at hg
+  | case30 head tail h1 h2 h3 h4 h5 h6 h7 h8 h9 h10 h11 h12 h13 h14 h15 h16 h17 h18 h19 =>
     intro u pos seen s pad hl
     rw [layoutUL] at hl
     · cases hl
@@ -309,10 +311,44 @@ theorem guard_passesL {C : Codecs} {T : String → Prop} (hC : LawfulCodecs C T)
 /-- "WordCount tells which": for every optional slot of the layout, the word count of the message equals the one
     Unmarshal tests for iff the field is non-zero (so: on the wire) -/
 def WcTells (env' : Env) (wc : Nat) (u : List Slot) : Prop :=
-  ∀ b w e f k, Slot.opt b w e f (some k) ∈ u → ∀ x, env'.get f = some (.n x) → (wc = k ↔ x ≠ 0)
+  (∀ b w e f k, Slot.opt b w e f (some k) ∈ u → ∀ x, env'.get f = some (.n x) → (wc = k ↔ x ≠ 0)) ∧
+  (∀ b w e f n k, Slot.optInts b w e f n (some k) ∈ u → ∀ xs, env'.get f = some (.ns xs) → xs.length = n →
+    (wc = k ↔ xs.any (· != 0) = true))
 
 theorem WcTells.tail {env' : Env} {wc : Nat} {sl : Slot} {u : List Slot} (h : WcTells env' wc (sl :: u)) :
-    WcTells env' wc u := fun b w e f k hm => h b w e f k (List.mem_cons_of_mem _ hm)
+    WcTells env' wc u :=
+  ⟨fun b w e f k hm => h.1 b w e f k (List.mem_cons_of_mem _ hm),
+   fun b w e f n k hm => h.2 b w e f n k (List.mem_cons_of_mem _ hm)⟩
+
+/-- three little-endian 32-bit integers read by the composite literal `[3]T{…}` of WRITE_AND_CLOSE -/
+theorem step_readArr3 (C : Codecs) (s : UState) (b : Blk) (f : String) (pre post : Bytes) (x y z : Nat)
+    (hx : x < 256 ^ 4) (hy : y < 256 ^ 4) (hz : z < 256 ^ 4)
+    (hblk : s.blk b = pre ++ ([x, y, z].flatMap (intBytes 4 .le) ++ post)) (hoff : s.offset = pre.length) :
+    runUStmt C s (.readArr3 b f) = .next { s with env := s.env.set f (.ns [x, y, z]) } := by
+  have hb : s.blk b = pre ++ (intBytes 4 .le x ++ (intBytes 4 .le y ++ (intBytes 4 .le z ++ post))) := by
+    rw [hblk]; simp [List.flatMap_cons, List.append_assoc]
+  have h1 : sliceC (s.blk b) (s.ext b) s.offset (s.offset + 4) = .ok (intBytes 4 .le x) := by
+    rw [hb, hoff]; exact sliceC_mid pre _ _ _ 4 (intBytes_length 4 .le x).symm
+  have h2 : sliceC (s.blk b) (s.ext b) (s.offset + 4) (s.offset + 8) = .ok (intBytes 4 .le y) := by
+    have e : s.blk b = (pre ++ intBytes 4 .le x) ++ (intBytes 4 .le y ++ (intBytes 4 .le z ++ post)) := by
+      rw [hb]; simp [List.append_assoc]
+    have hl : s.offset + 4 = (pre ++ intBytes 4 .le x).length := by simp [hoff, intBytes_length]
+    have hl8 : s.offset + 8 = (pre ++ intBytes 4 .le x).length + 4 := by simp [hoff, intBytes_length]
+    rw [e, hl8, hl]
+    exact sliceC_mid (pre ++ intBytes 4 .le x) (intBytes 4 .le y) (intBytes 4 .le z ++ post) (s.ext b) 4
+      (intBytes_length 4 .le y).symm
+  have h3 : sliceC (s.blk b) (s.ext b) (s.offset + 8) (s.offset + 12) = .ok (intBytes 4 .le z) := by
+    have e : s.blk b = (pre ++ intBytes 4 .le x ++ intBytes 4 .le y) ++ (intBytes 4 .le z ++ post) := by
+      rw [hb]; simp [List.append_assoc]
+    have hl : s.offset + 8 = (pre ++ intBytes 4 .le x ++ intBytes 4 .le y).length := by simp [hoff, intBytes_length]
+    have hl12 : s.offset + 12 = (pre ++ intBytes 4 .le x ++ intBytes 4 .le y).length + 4 := by simp [hoff, intBytes_length]
+    rw [e, hl12, hl]
+    exact sliceC_mid _ (intBytes 4 .le z) post (s.ext b) 4 (intBytes_length 4 .le z).symm
+  have v1 : leNat (intBytes 4 .le x) = x := intVal_intBytes 4 .le x hx
+  have v2 : leNat (intBytes 4 .le y) = y := intVal_intBytes 4 .le y hy
+  have v3 : leNat (intBytes 4 .le z) = z := intVal_intBytes 4 .le z hz
+  rw [runUStmt, h1, h2, h3]
+  simp only [v1, v2, v3]
 
 theorem runU_go_layoutL {C : Codecs} {T : String → Prop} (hC : LawfulCodecs C T) (env' : Env) (plen : Nat) (hp hd : Bool)
     (stmts : List UStmt) :
@@ -699,7 +735,7 @@ theorem runU_go_layoutL {C : Codecs} {T : String → Prop} (hC : LawfulCodecs C 
       unfold relationsHold at h1; rw [Bool.and_eq_true] at h1; exact h1.2
     obtain ⟨x, hx, hlt⟩ := hfit (.opt b n e f0 (some k)) (List.mem_cons_self ..)
     obtain ⟨pre, hblk, hoff⟩ := hinv.at (sl := .opt b n e f0 (some k)) hok.1
-    have hiff := hwc b n e f0 k (List.mem_cons_self ..) x hx
+    have hiff := hwc.1 b n e f0 k (List.mem_cons_self ..) x hx
     -- `c.F = 0` first: whatever the receiver held is gone
     let s1 : UState := { s with env := s.env.set f0 (.n 0) }
     have h0 : runUStmt C s (.zeroInt f0) = .next s1 := by rw [runUStmt]
@@ -746,7 +782,91 @@ theorem runU_go_layoutL {C : Codecs} {T : String → Prop} (hC : LawfulCodecs C 
       exact ⟨d, by rw [go_next2 r h0 h1]; exact hd, fun g hg => hseen g (List.mem_cons_of_mem _ hg),
         fun hnf g hg => hagree hnf g (mem_shift hg)⟩
   | case24 f0 k b n b' w e f m r hc => intro u pos seen s pad hl; simp [layoutUL, hc] at hl
-  | case25 e r ih =>
+  | case25 f0 n k b g b' f m r hcond ih =>
+    intro u pos seen s pad hl hok hrel hfit hrest hinv hag hsz hwc hpd hpl
+    simp only [recvFields] at hsz
+    obtain ⟨rfl, rfl, rfl, rfl, rfl⟩ := hcond
+    simp only [layoutUL, and_self, if_true, Option.map_eq_some_iff] at hl
+    obtain ⟨u', hl', rfl⟩ := hl
+    simp only [okUL, Bool.and_eq_true] at hok
+    have hrel1 : relationsHold C env' plen pad
+        (.ifWordCount k [.guard b (.lit 12), .readArr3 b f0, .advance (.lit 12)] :: r) = true := by
+      simpa [relationsHold] using hrel
+    unfold relationsHold at hrel1
+    rw [Bool.and_eq_true] at hrel1
+    obtain ⟨hbody, hrel'⟩ := hrel1
+    obtain ⟨xs, hx, hlt⟩ := hfit (.optInts b 4 .le f0 3 (some k)) (List.mem_cons_self ..)
+    have hlen3 : xs.length = 3 := by
+      have hb2 : relationsHold C env' plen pad [.readArr3 b f0, .advance (.lit 12)] = true := by
+        simpa [relationsHold] using hbody
+      unfold relationsHold at hb2
+      rw [Bool.and_eq_true] at hb2
+      have := hb2.1
+      rw [hx] at this
+      simpa using this
+    obtain ⟨pre, hblk, hoff⟩ := hinv.at (sl := .optInts b 4 .le f0 3 (some k)) hok.1
+    have hiff := hwc.2 b 4 .le f0 3 k (List.mem_cons_self ..) xs hx hlen3
+    -- `c.F = [3]T{0, 0, 0}` first: whatever the receiver held is gone
+    let s1 : UState := { s with env := s.env.set f0 (.ns (List.replicate 3 0)) }
+    have h0 : runUStmt C s (.zeroInts f0 3) = .next s1 := by rw [runUStmt]
+    by_cases hany : xs.any (· != 0) = true
+    · -- the array is on the wire and the word count says so
+      have heq : s1.wordCount = k := hiff.mpr hany
+      obtain ⟨x, y, z, rfl⟩ : ∃ x y z, xs = [x, y, z] := by
+        match xs, hlen3 with
+        | [x, y, z], _ => exact ⟨x, y, z, rfl⟩
+      have hsb : slotBytes C env' (.optInts b 4 .le f0 3 (some k)) = [x, y, z].flatMap (intBytes 4 .le) := by
+        simp only [slotBytes, hx, hany, if_true]
+      rw [hsb] at hblk
+      have hblk' : s1.blk b = pre ++ ([x, y, z].flatMap (intBytes 4 .le) ++ layoutBytes C env' (u'.filter (·.blk == b))) :=
+        (blk_eq_pick s b).trans hblk
+      have hl12 : ([x, y, z].flatMap (intBytes 4 .le)).length = 12 := by simp [List.flatMap_cons, intBytes_length]
+      have hg : runUStmt C s1 (.guard b (.lit 12)) = .next s1 := by
+        rw [runUStmt]
+        simp only [evalExpr]
+        rw [if_neg (by rw [hblk']; simp only [List.length_append, hl12]; show ¬ _ < s.offset + 12; omega)]
+      have hr := step_readArr3 C s1 b f0 pre _ x y z (hlt x (by simp)) (hlt y (by simp)) (hlt z (by simp)) hblk' hoff
+      have ha := step_advance C { s1 with env := s1.env.set f0 (.ns [x, y, z]) } (.lit 12) 12 rfl
+      have h1 : runUStmt C s1 (.ifWordCount k [.guard b (.lit 12), .readArr3 b f0, .advance (.lit 12)]) =
+          .next { s1 with env := s1.env.set f0 (.ns [x, y, z]), offset := s1.offset + 12 } := by
+        rw [runUStmt, if_pos heq]
+        simp only [runUStmts, hg, hr, ha]
+      have hinv' := hinv.step (sl := .optInts b 4 .le f0 3 (some k)) hok.1
+      rw [hsb, hl12] at hinv'
+      have hgs : ∀ q, ((s.env.set f0 (.ns (List.replicate 3 0))).set f0 (.ns [x, y, z])).get q = (s.env.set f0 (.ns [x, y, z])).get q := by
+        intro q; simp only [Env.get_set]; split <;> rfl
+      obtain ⟨d, hd, hseen, hagree⟩ := ih u' (pos.read b) (f0 :: seen)
+        { s1 with env := s1.env.set f0 (.ns [x, y, z]), offset := s1.offset + 12 } pad hl' hok.2 hrel'
+        (fun sl h => hfit sl (List.mem_cons_of_mem _ h)) (restOnlyLast_tail hrest) hinv'
+        ((hag.set f0 (.ns [x, y, z]) hx).congr_left hgs) ((hsz.set f0 (.ns [x, y, z]) hx).congr_left hgs) hwc.tail hpd hpl
+      exact ⟨d, by rw [go_next2 r h0 h1]; exact hd, fun g hg => hseen g (List.mem_cons_of_mem _ hg),
+        fun hnf g hg => hagree hnf g (mem_shift hg)⟩
+    · -- no element is set: the array is not on the wire, the word count says so, and the reset has put the zeros there
+      have hne : ¬ s1.wordCount = k := fun h => hany (hiff.mp h)
+      have h1 : runUStmt C s1 (.ifWordCount k [.guard b (.lit 12), .readArr3 b f0, .advance (.lit 12)]) = .next s1 := by
+        rw [runUStmt, if_neg hne]
+      have hsb : slotBytes C env' (.optInts b 4 .le f0 3 (some k)) = [] := by
+        simp only [slotBytes, hx, hany, Bool.false_eq_true, if_false]
+      have hinv' := hinv.step (sl := .optInts b 4 .le f0 3 (some k)) hok.1
+      rw [hsb] at hinv'
+      simp only [List.length_nil, Nat.add_zero] at hinv'
+      have hz : xs = List.replicate 3 0 := by
+        have hall : ∀ q ∈ xs, q = 0 := by
+          intro q hq
+          by_cases hq0 : q = 0
+          · exact hq0
+          · exact absurd (List.any_eq_true.2 ⟨q, hq, by simpa using hq0⟩) hany
+        match xs, hlen3, hall with
+        | [x, y, z], _, hall =>
+          rw [hall x (by simp), hall y (by simp), hall z (by simp)]; rfl
+      have hx' : env'.get f0 = some (.ns (List.replicate 3 0)) := by rw [hx, hz]
+      obtain ⟨d, hd, hseen, hagree⟩ := ih u' (pos.read b) (f0 :: seen) s1 pad hl' hok.2 hrel'
+        (fun sl h => hfit sl (List.mem_cons_of_mem _ h)) (restOnlyLast_tail hrest) hinv' (hag.set f0 _ hx')
+        (hsz.set f0 _ hx') hwc.tail hpd hpl
+      exact ⟨d, by rw [go_next2 r h0 h1]; exact hd, fun g hg => hseen g (List.mem_cons_of_mem _ hg),
+        fun hnf g hg => hagree hnf g (mem_shift hg)⟩
+  | case26 f0 n k b g b' f m r hc => intro u pos seen s pad hl; simp [layoutUL, hc] at hl
+  | case27 e r ih =>
     intro u pos seen s pad hl hok hrel hfit hrest hinv hag hsz hwc hpd hpl
     simp only [recvFields] at hsz
     simp only [layoutUL] at hl
@@ -759,7 +879,7 @@ theorem runU_go_layoutL {C : Codecs} {T : String → Prop} (hC : LawfulCodecs C 
       rw [go_next r h1]
       exact ih u pos seen { s with pad := n } n hl hok.2 hrel hfit hrest hinv hag hsz hwc rfl hpl
     · cases hrel
-  | case26 r ih =>
+  | case28 r ih =>
     intro u pos seen s pad hl hok hrel hfit hrest hinv hag hsz hwc hpd hpl
     simp only [recvFields] at hsz
     simp only [layoutUL] at hl
@@ -769,7 +889,7 @@ theorem runU_go_layoutL {C : Codecs} {T : String → Prop} (hC : LawfulCodecs C 
     have h1 : runUStmt C s .padRoundUp = .next { s with pad := if s.pad % 2 = 1 then s.pad + 1 else s.pad } := by rw [runUStmt]
     rw [go_next r h1]
     exact ih u pos seen _ _ hl hok hrel hfit hrest hinv hag hsz hwc rfl hpl
-  | case27 r ih =>
+  | case29 r ih =>
     intro u pos seen s pad hl hok hrel hfit hrest hinv hag hsz hwc hpd hpl
     simp only [recvFields] at hsz
     simp only [layoutUL] at hl
@@ -780,7 +900,7 @@ theorem runU_go_layoutL {C : Codecs} {T : String → Prop} (hC : LawfulCodecs C 
     have h1 : runUStmt C s .padIfPOdd = .next { s with pad := if (s.P.length + 3) % 2 = 1 then 1 else s.pad } := by rw [runUStmt]
     rw [go_next r h1]
     exact ih u pos seen _ _ hl hok hrel hfit hrest hinv hag hsz hwc rfl rfl
-  | case28 head tail h1 h2 h3 h4 h5 h6 h7 h8 h9 h10 h11 h12 h13 h14 h15 h16 h17 h18 =>
+  | case30 head tail h1 h2 h3 h4 h5 h6 h7 h8 h9 h10 h11 h12 h13 h14 h15 h16 h17 h18 h19 =>
     intro u pos seen s pad hl
     rw [layoutUL] at hl
     · cases hl
